@@ -35,6 +35,7 @@ type orch struct {
 	trouble  []string
 	sums     map[string][]*Summary // engine -> worker summaries
 	deaths   []VRec
+	races    []VRec // verified by the race detector itself, not by replay
 	lostRuns int64
 	extra    map[string]interface{} // engine-specific evidence (external engines)
 }
@@ -118,13 +119,20 @@ func (o *orch) runEngine(e *props.Engine) {
 	recIdx := "0,1,2,3,4"
 	var wg sync.WaitGroup
 	t0 := time.Now()
-	for w := 0; w < o.workers; w++ {
+	nw := o.workers
+	if e.Workers > 0 && e.Workers < nw {
+		nw = e.Workers
+	}
+	for w := 0; w < nw; w++ {
 		wg.Add(1)
 		go func(w int) {
 			defer wg.Done()
 			start := uint64(w)
 			for attempt := 0; attempt < 20; attempt++ {
-				next, done := o.spawnWorker(e, w, attempt, start, uint64(o.workers), limit, minRuns, deadline, recIdx)
+				if e.Variant == "race" && attempt >= 3 {
+					return // three reports from this worker's share are enough
+				}
+				next, done := o.spawnWorker(e, w, attempt, start, uint64(nw), limit, minRuns, deadline, recIdx)
 				if done {
 					return
 				}
@@ -152,7 +160,11 @@ func (o *orch) spawnWorker(e *props.Engine, w, attempt int, start, stride, limit
 		"-limit", strconv.FormatUint(limit, 10), "-min", strconv.FormatUint(minRuns, 10), "-deadline", strconv.FormatInt(deadline, 10),
 		"-record", recIdx, "-journal", journal, "-out", out, "-replaydir", filepath.Join(o.verif, "replays"), "-known", o.known}
 	cmd := exec.Command(o.bin(e.Variant), args...)
-	cmd.Env = append(os.Environ(), "GOMAXPROCS=2")
+	procs := 2
+	if e.Procs > 0 {
+		procs = e.Procs
+	}
+	cmd.Env = append(os.Environ(), fmt.Sprintf("GOMAXPROCS=%d", procs), "GORACE=halt_on_error=1 exitcode=66")
 	var stderr bytes.Buffer
 	cmd.Stderr = &stderr
 	cmd.Stdout = &stderr
@@ -190,6 +202,13 @@ func (o *orch) spawnWorker(e *props.Engine, w, attempt int, start, stride, limit
 		return 0, true
 	}
 	kind := "died"
+	if strings.Contains(stderr.String(), "WARNING: DATA RACE") {
+		o.mu.Lock()
+		o.lostRuns += int64((runIdx-start)/stride) + 1
+		o.mu.Unlock()
+		o.recordRace(e, runIdx, stderr.String())
+		return runIdx + stride, false
+	}
 	if strings.Contains(tail, "HANG run=") {
 		kind = "hang"
 	} else if strings.Contains(tail, "out of memory") || strings.Contains(tail, "cannot allocate memory") {
@@ -228,7 +247,7 @@ func (o *orch) confirmDeath(e *props.Engine, runIdx uint64, kind, tail string) {
 	rs := core.RunSeed(o.seed, o.p.ID, e.Name, runIdx)
 	c := core.Class{Property: o.p.ID, Oracle: "process-survives", API: e.Name, Detail: kind}
 	rf := &core.ReplayFile{Property: o.p.ID, Engine: e.Name, Variant: e.Variant, VerifSeed: o.seed, Run: runIdx, RunSeed: rs, BySeed: true,
-		Class: c, Msg: "the worker process was brought down (" + kind + ") by this run; reproduced alone. stderr tail:\n" + tail, Values: []uint64{}}
+		Class: c, Msg: "the worker process was brought down (" + kind + ") by this run; reproduced alone. stderr tail:\n" + tail, Values: core.U64s{}}
 	path := filepath.Join(o.verif, "replays", fmt.Sprintf("%s-%s-death-%d.json", o.p.ID, e.Name, runIdx))
 	if err := rf.Write(path); err != nil {
 		o.addTrouble("cannot write replay file: %v", err)
@@ -236,6 +255,45 @@ func (o *orch) confirmDeath(e *props.Engine, runIdx uint64, kind, tail string) {
 	}
 	o.mu.Lock()
 	o.deaths = append(o.deaths, VRec{Class: c, Msg: rf.Msg, Replay: path, Run: runIdx, Engine: e.Name})
+	o.mu.Unlock()
+}
+
+// recordRace turns a race-detector report into a violation when it involves
+// orb code; a report with harness frames only is harness trouble.
+func (o *orch) recordRace(e *props.Engine, runIdx uint64, report string) {
+	if i := strings.Index(report, "WARNING: DATA RACE"); i >= 0 {
+		report = report[i:]
+	}
+	if len(report) > 6000 {
+		report = report[:6000] + "\n..."
+	}
+	if !strings.Contains(report, "github.com/paulmach/orb/quadtree") && !strings.Contains(report, "github.com/paulmach/orb/planar") && !strings.Contains(report, "paulmach/orb.") {
+		o.addTrouble("engine %s run %d: data race without an orb frame (harness race?):\n%s", e.Name, runIdx, report)
+		return
+	}
+	// detail: the first orb function named in the report
+	detail := ""
+	for _, ln := range strings.Split(report, "\n") {
+		ln = strings.TrimSpace(ln)
+		if strings.HasPrefix(ln, "github.com/paulmach/orb/") && !strings.Contains(ln, "verifrt") {
+			detail = strings.TrimSuffix(strings.SplitN(ln, "(", 2)[0], ".")
+			if j := strings.Index(ln, "()"); j > 0 {
+				detail = ln[:j]
+			}
+			break
+		}
+	}
+	rs := core.RunSeed(o.seed, o.p.ID, e.Name, runIdx)
+	c := core.Class{Property: o.p.ID, Oracle: "race-free", API: e.Name, Detail: detail}
+	rf := &core.ReplayFile{Property: o.p.ID, Engine: e.Name, Variant: e.Variant, VerifSeed: o.seed, Run: runIdx, RunSeed: rs, BySeed: true,
+		Class: c, Msg: "the race detector reported a data race while only read-only queries were running (real goroutines; reproduction is near-certain, not exact):\n" + report, Values: core.U64s{}}
+	path := filepath.Join(o.verif, "replays", fmt.Sprintf("%s-%s-race-%d.json", o.p.ID, e.Name, runIdx))
+	if err := rf.Write(path); err != nil {
+		o.addTrouble("cannot write replay file: %v", err)
+		return
+	}
+	o.mu.Lock()
+	o.races = append(o.races, VRec{Class: c, Msg: rf.Msg, Replay: path, Run: runIdx, Engine: e.Name})
 	o.mu.Unlock()
 }
 
@@ -431,6 +489,14 @@ func (o *orch) finish(t0 time.Time, detOK bool, detN int) int {
 		verdicts = append(verdicts, verdict{v: v, known: o.findings.Known(v.Class)})
 	}
 
+	for _, v := range o.races {
+		vcounts[v.Class.String()]++
+		if !seen[v.Class] {
+			seen[v.Class] = true
+			verdicts = append(verdicts, verdict{v: v, known: o.findings.Known(v.Class)})
+		}
+	}
+
 	violations := 0
 	var knownLines []string
 	for _, vd := range verdicts {
@@ -448,7 +514,11 @@ func (o *orch) finish(t0 time.Time, detOK bool, detN int) int {
 		}
 		violations++
 		fmt.Printf("VIOLATION property=%s replay=%s\n", p.ID, vd.v.Replay)
-		fmt.Printf("  class: %s (%d runs hit it)\n  %s\n", vd.v.Class, vcounts[vd.v.Class.String()], firstLines(vd.v.Msg, 12))
+		if violations <= 6 {
+			fmt.Printf("  class: %s (%d runs hit it)\n  %s\n", vd.v.Class, vcounts[vd.v.Class.String()], firstLines(vd.v.Msg, 10))
+		} else {
+			fmt.Printf("  class: %s (%d runs hit it)\n", vd.v.Class, vcounts[vd.v.Class.String()])
+		}
 	}
 
 	wall := time.Since(t0).Seconds()
